@@ -223,6 +223,8 @@ def run(tier):
     for n, b in g.programs(full_n):
         ok = not gen_ctrl.has_unreachable(b)
         items.append((n, gen_ctrl.make_program(b, "implicit"), "ctrl", ok, 2, {}))
+        if gen_ctrl.has_repeated_stmt(b):
+            items.append((n, dict(gen_ctrl.make_program(b, "implicit"), share=True), "ctrl-shared", ok, 2, {}))
         if "retv" not in str(b):
             items.append((n, gen_ctrl.make_sub_program(b), "ctrl-sub", ok, 4, {}))
     bg = gen_ctrl.Grammar(gen_ctrl.BARE_ATOMS, gen_ctrl.FULL_COMPOUNDS, gen_ctrl.BARE_CONDS)
@@ -237,6 +239,9 @@ def run(tier):
             continue
         ok = not gen_ctrl.has_unreachable(b)
         items.append((n, gen_ctrl.make_program(b, "implicit"), "ctrl-loop", ok, 2, {}))
+        if gen_ctrl.has_repeated_stmt(b):
+            # the same Expr object used at every occurrence of a repeated statement
+            items.append((n, dict(gen_ctrl.make_program(b, "implicit"), share=True), "ctrl-loop-shared", ok, 2, {}))
     items.extend(degenerate_programs())
     items.extend(invalid_programs())
     longs = long_programs(tier)
